@@ -21,6 +21,19 @@ impl Default for Slot {
     fn default() -> Self { Self::DEFAULT }
 }
 
+/// alignment 1, two bytes, the constant default is not one repeated byte
+#[derive(Clone, Debug, PartialEq)]
+struct P2 { a: u8, b: u8 }
+impl Zeroize for P2 {
+    fn zeroize(&mut self) { self.a.zeroize(); self.b.zeroize(); }
+}
+impl ConstDefault for P2 {
+    const DEFAULT: Self = P2 { a: 0x11, b: 0x22 };
+}
+impl Default for P2 {
+    fn default() -> Self { Self::DEFAULT }
+}
+
 trait FillElem: Zeroize + ConstDefault + Default + PartialEq + Clone {
     fn make(seed: u64, i: u64) -> Self;
     fn fields(&self, out: &mut Vec<u64>);
@@ -37,6 +50,10 @@ impl FillElem for u64 {
 impl FillElem for [u8; 3] {
     fn make(s: u64, i: u64) -> Self { [val(s, i, 0) as u8, val(s, i, 1) as u8, val(s, i, 2) as u8] }
     fn fields(&self, o: &mut Vec<u64>) { o.extend(self.iter().map(|x| *x as u64)) }
+}
+impl FillElem for P2 {
+    fn make(s: u64, i: u64) -> Self { P2 { a: val(s, i, 0) as u8, b: val(s, i, 1) as u8 } }
+    fn fields(&self, o: &mut Vec<u64>) { o.extend([self.a as u64, self.b as u64]) }
 }
 impl FillElem for Slot {
     fn make(s: u64, i: u64) -> Self { Slot { id: val(s, i, 0) as u32, wiped: val(s, i, 1) % 2 == 1, secret: val(s, i, 2) } }
@@ -114,13 +131,14 @@ fn go<T: FillElem, N: ArrayLength>(kv: &KV) -> String where GenericArray<T, N>: 
 fn run<N: ArrayLength>(kv: &KV) -> String
 where
     GenericArray<u8, N>: ConstDefault, GenericArray<u64, N>: ConstDefault, GenericArray<[u8; 3], N>: ConstDefault,
-    GenericArray<Slot, N>: ConstDefault, GenericArray<GenericArray<Slot, U3>, N>: ConstDefault,
+    GenericArray<Slot, N>: ConstDefault, GenericArray<GenericArray<Slot, U3>, N>: ConstDefault, GenericArray<P2, N>: ConstDefault,
 {
     match get(kv, "kind") {
         "u8" => go::<u8, N>(kv),
         "u64" => go::<u64, N>(kv),
         "b3" => go::<[u8; 3], N>(kv),
         "slot" => go::<Slot, N>(kv),
+        "p2" => go::<P2, N>(kv),
         "nest" => go::<GenericArray<Slot, U3>, N>(kv),
         _ => "bad-op".to_string(),
     }
